@@ -224,6 +224,12 @@ func e2Programs(thorough bool) []*c04Prog {
 				src := "import (\n\t\"github.com/mazrean/kessoku\"\n)\n\n" + body.String() + inject
 				out = append(out, &c04Prog{Family: "E2", Name: "name " + n + " (" + shape + ") " + mode, Files: map[string]string{"k.go": src}, Invoke: [][]string{{"k.go"}},
 					Pre: "name=" + n + ",shape=" + shape + ",mode=" + mode})
+				if shape == "type" {
+					// the same file as the SECOND file of one invocation (the allocator is shared across files)
+					pre := "import (\n\t\"github.com/mazrean/kessoku\"\n)\n\ntype PreA struct{ A int }\ntype PreB struct{ A int }\n\nfunc NewPreA() *PreA { return &PreA{} }\n\nfunc NewPreB(a *PreA) *PreB { return &PreB{} }\n\nvar _ = kessoku.Inject[*PreB](\"InitPre\", kessoku.Provide(NewPreA), kessoku.Provide(NewPreB))\n"
+					out = append(out, &c04Prog{Family: "E2", Name: "name " + n + " (type, second file of the invocation) " + mode, Files: map[string]string{"a_first.go": pre, "k.go": src}, Invoke: [][]string{{"a_first.go", "k.go"}},
+						Pre: "name=" + n + ",shape=second-file,mode=" + mode})
+				}
 			}
 		}
 	}
